@@ -47,7 +47,28 @@ FIELDS:
 ''',
 }
 
-SCHEMA_NAMES = ["META", "SKILL", "TEST_HOLOGRAPHIC", "DEBATE_TRANSCRIPT", "GEN_A", "GEN_B", "NOPE"]
+GEN_SCHEMAS["gen_c.oct.md"] = '''===GEN_C===
+META:
+  TYPE::SCHEMA
+  VERSION::"1.0"
+POLICY:
+  VERSION::"1.0"
+  UNKNOWN_FIELDS::WARN
+FIELDS:
+  CONTENT::["c"∧REQ]
+  FIELD::["f"∧OPT]
+  ROOT::["r"∧OPT∧ENUM[R1,R2]]
+  STATUS::["ACTIVE"∧OPT∧ENUM[ACTIVE,DONE]]
+  Status::["x"∧OPT]
+  A_B::["1"∧OPT]
+  A-B::["2"∧OPT]
+  WS::["w"∧OPT]
+===END===
+'''
+# GEN_C: field names that collide once turned into grammar rule names (case-only differences, '-' vs '_', names equal to the
+# compiler's own structural rules) -- whatever disambiguates them must not depend on what the process compiled before
+
+SCHEMA_NAMES = ["META", "SKILL", "TEST_HOLOGRAPHIC", "DEBATE_TRANSCRIPT", "GEN_A", "GEN_B", "GEN_C", "NOPE"]
 PACKAGED_ONLY = {"META", "SKILL", "TEST_HOLOGRAPHIC", "DEBATE_TRANSCRIPT", "NOPE"}
 
 
@@ -89,6 +110,9 @@ def doc_reporting(t: Tape, marker: str) -> str:
     lines.append("  SIZE::" + t.pick(["3", "12", '"4"', "1.0", "1", "true", "0.0", "false"], "rep.size"))
     for u in t.shuffle(unknown, "rep.unk2")[:4]:
         lines.append(f"  {u}_B::1")
+    if t.choose(2, "rep.genc"):
+        lines += ["GEN_C:", "  CONTENT::" + t.pick(["c", '"two words"'], "rep.cc"), "  STATUS::" + t.pick(["ACTIVE", "active", "A", "DONE"], "rep.cs"),
+                  "  Status::on", "  A_B::1"]
     if t.choose(3, "rep.lit") == 0:
         lines += ["CODE::", "  ```python", "  print('x  y')", "\tif x: pass" if False else "  if x: pass", "  ```"]
     lines.append("===END===")
@@ -102,8 +126,13 @@ def doc_small(t: Tape, marker: str, style: str = "canonical") -> str:
 
 
 def doc_contract(t: Tape, marker: str) -> str:
-    fields = t.shuffle(["STATUS", "PRIORITY", "OWNER", "SCORE", "LABELS"], "con.f")[: 2 + t.choose(4, "con.n")]
+    fields = t.shuffle(["STATUS", "PRIORITY", "OWNER", "SCORE", "LABELS", "Status", "CONTENT", "A_B", "A-B", "ROOT"], "con.f")[: 2 + t.choose(6, "con.n")]
     specs = {
+        "Status": '"FIELD[Status]::OPT∧ENUM[on,off]"',
+        "CONTENT": '"FIELD[CONTENT]::REQ"',
+        "A_B": '"FIELD[A_B]::OPT∧TYPE[NUMBER]"',
+        "A-B": '"FIELD[A-B]::OPT"',
+        "ROOT": '"FIELD[ROOT]::OPT∧ENUM[R1,R2]"',
         "STATUS": '"FIELD[STATUS]::REQ∧ENUM[ACTIVE,PAUSED,COMPLETE]"',
         "PRIORITY": '"FIELD[PRIORITY]::OPT∧ENUM[LOW,MEDIUM,HIGH]"',
         "OWNER": '"FIELD[OWNER]::REQ∧REGEX[\\"^[a-z]+$\\"]"',
@@ -136,6 +165,43 @@ def mutate_text(t: Tape, text: str) -> str:
     return "\n".join(lines)
 
 
+# ---- unicode position battery ------------------------------------------------------------------------------------
+# One character from each interesting Unicode category, each in its own tiny document per syntactic position.  A lexer or
+# emitter that caches a per-character / per-token verdict must give the same answer whatever position the character was
+# first met in: the battery serves one position first and probes the others (and the reverse).
+
+UNI_CHARS = ["\u2163", "\u00b2", "\u0663", "\u0301", "\ufe0f", "1\ufe0f\u20e3", "\u26a0", "\u26a0\ufe0f", "\u00e9", "\u03a9", "\u65e5",
+             "\U0001d518", "\u00aa", "\u01c5", "\u02b0", "\u203f", "\u200d", "\u20ac", "\u00bd", "\u2460", "\u0e01\u0e33", "\U0001f600",
+             "\u00a0", "\u3000", "\u2028"]
+UNI_POSITIONS = {
+    "key_body": "===U===\nPHASE_{c}X::1\n===END===\n",
+    "key_start": "===U===\n{c}KEY::1\n===END===\n",
+    "value_start": "===U===\nPHASE::{c}\n===END===\n",
+    "value_body": "===U===\nPHASE::ab{c}cd\n===END===\n",
+    "list_item": "===U===\nL::[{c},x{c},{c}y]\n===END===\n",
+    "quoted": '===U===\nQ::"a{c}b"\n===END===\n',
+    "envelope": "===U{c}N===\nA::1\n===END===\n",
+    "after_digit": "===U===\nSTEP_1{c}::2\n===END===\n",
+}
+
+
+def uni_battery() -> dict:
+    """{position: [call specs]}; ids 910000+ (stable)."""
+    out = {}
+    n = 910000
+    for pi, (pos, tmpl) in enumerate(UNI_POSITIONS.items()):
+        lst = []
+        for ci, ch in enumerate(UNI_CHARS):
+            for api in ("tool.validate", "py.emit"):
+                n = 910000 + (pi * len(UNI_CHARS) + ci) * 2 + (0 if api == "tool.validate" else 1)
+                c = {"id": n, "api": api, "doc_kind": f"unicode:{pos}", "text": tmpl.replace("{c}", ch), "schema": "META"}
+                if api == "tool.validate":
+                    c["args"] = {"fix": True}
+                lst.append(c)
+        out[pos] = lst
+    return out
+
+
 # ---- pool generation ---------------------------------------------------------------------------------------------
 
 
@@ -162,7 +228,7 @@ def gen_call(t: Tape, idx: int, corpus: list, heavy: bool = False) -> dict:
     else:
         text = t.pick(["", "\n\n", "plain prose without structure", "===X===\n" + "[" * 40, "A::" + "[" * 300 + "]" * 300,
                        "===DOC===\nA::😀\nB::‮ rtl\n===END===\n", "K::1\n" * 400], "call.garbage")
-    schema = t.weighted([("META", 3), ("GEN_A", 5), ("GEN_B", 3), ("SKILL", 1), ("TEST_HOLOGRAPHIC", 1), ("DEBATE_TRANSCRIPT", 1),
+    schema = t.weighted([("META", 3), ("GEN_A", 5), ("GEN_B", 3), ("GEN_C", 3), ("SKILL", 1), ("TEST_HOLOGRAPHIC", 1), ("DEBATE_TRANSCRIPT", 1),
                          ("NOPE", 1)], "call.schema")
     api = t.weighted([("tool.validate", 8), ("tool.write", 5), ("tool.eject", 3), ("tool.compile_grammar", 2), ("tool.validate_file", 1),
                       ("py.tokenize", 1), ("py.parse", 1), ("py.parse_with_warnings", 1), ("py.emit", 2), ("py.validate", 2),
